@@ -19,6 +19,7 @@ type RunOpts struct {
 	Deadline  time.Duration
 	LogSMT    string // directory for solver transcripts (debug)
 	Verbose   bool
+	Progress  bool
 }
 
 type AssertSummary struct {
@@ -51,6 +52,7 @@ type RunResult struct {
 	MaxDecisions int                       `json:"max_decisions"`
 	SampleInputs []map[string]string       `json:"sample_inputs,omitempty"`
 	Events       [][]Event                 `json:"-"`
+	Emits        []string                  `json:"-"`
 }
 
 type PanicInfo struct {
@@ -81,6 +83,7 @@ func Explore(p *Program, entry *ssa.Function, o RunOpts, onPath func(*Exec, Path
 	var firstErr error
 	var wg sync.WaitGroup
 	var solverTime time.Duration
+	lastProgress := time.Now()
 	for w := 0; w < o.Workers; w++ {
 		wg.Add(1)
 		go func(w int) {
@@ -201,11 +204,18 @@ func Explore(p *Program, entry *ssa.Function, o RunOpts, onPath func(*Exec, Path
 				if len(res.SampleInputs) < 5 && pr.Status == "ok" && len(ex.inputs) > 0 {
 					res.SampleInputs = append(res.SampleInputs, ex.inputSnapshot(ex.model))
 				}
+				if len(pr.Emits) > 0 && len(res.Emits) < 64 {
+					res.Emits = append(res.Emits, pr.Emits...)
+				}
 				if ex.sched != nil && len(res.Events) < 4 {
 					res.Events = append(res.Events, ex.sched.events)
 				}
 				queue = append(queue, children...)
 				pending += len(children) - 1
+				if o.Progress && time.Since(lastProgress) > 15*time.Second {
+					lastProgress = time.Now()
+					fmt.Fprintf(os.Stderr, "   ... %d paths done, %d pending, %.0fs\n", res.Paths, pending, time.Since(t0).Seconds())
+				}
 				if (o.MaxPaths > 0 && res.Paths >= o.MaxPaths) || (o.Deadline > 0 && time.Since(t0) > o.Deadline) {
 					if pending > 0 {
 						res.Truncated = true
